@@ -99,6 +99,8 @@ func tokValue(label string) any {
 		return map[string]any{"/": "not-a-cid"}
 	case "str-latin1": // a Go string that is not valid UTF-8 (legacy-encoded text): constructors accept any Go string
 		return "caf\xe9 \xff"
+	case "str-repl": // well-formed text that contains the replacement character itself (what lossy conversions turn broken bytes into)
+		return "caf\uFFFD au lait \uFFFD"
 	case "str-dlgtag": // a value that reads like the type tag of the OTHER token kind
 		return "ucan/dlg@1.0.0-rc.1"
 	case "str-invtag":
